@@ -435,3 +435,98 @@ pub fn run_case(case: &AdapterCase) -> CaseReport {
     }
     rep
 }
+
+/// C11 probe (worker 0): the blocking iterator with a consumer that is busy handling a signal
+/// while hundreds of further deliveries fill the self-pipe; then another thread calls close().
+/// close() must return at once (its wake-up write must not wait for room in the pipe), and once
+/// the consumer gets back to the iterator it must end.
+pub fn close_with_full_pipe_probe() -> CaseReport {
+    static BUSY: AtomicBool = AtomicBool::new(false);
+    let (recs, end) = fork_stream(30_000, |fd| {
+        crate::vsched::install();
+        ignore_sigpipe();
+        let sig = libc::SIGUSR1;
+        let (handle_tx, handle_rx) = std::sync::mpsc::channel::<signal_hook::iterator::Handle>();
+        let ended = Arc::new(AtomicBool::new(false));
+        let e2 = ended.clone();
+        let in_record = Arc::new(AtomicBool::new(false));
+        let ir2 = in_record.clone();
+        std::thread::spawn(move || {
+            let mut signals = signal_hook::iterator::Signals::new(&[sig]).expect("Signals");
+            handle_tx.send(signals.handle()).unwrap();
+            for _ in signals.forever() {
+                ir2.store(true, Ordering::SeqCst);
+                while BUSY.load(Ordering::SeqCst) {
+                    std::thread::sleep(std::time::Duration::from_micros(200));
+                }
+            }
+            e2.store(true, Ordering::SeqCst);
+        });
+        let handle = match handle_rx.recv_timeout(std::time::Duration::from_secs(5)) {
+            Ok(h) => h,
+            Err(_) => {
+                emit(fd, &json!({"k": "infra", "what": "consumer did not start"}));
+                return;
+            }
+        };
+        BUSY.store(true, Ordering::SeqCst);
+        unsafe { libc::raise(sig) };
+        let t0 = std::time::Instant::now();
+        while !in_record.load(Ordering::SeqCst) && t0.elapsed().as_secs() < 5 {
+            std::thread::sleep(std::time::Duration::from_micros(200));
+        }
+        // the flood and the close run on threads of their own: if the library blocks in there, the
+        // harness must stay able to say so
+        let flood_done = Arc::new(AtomicBool::new(false));
+        let fd2 = flood_done.clone();
+        std::thread::spawn(move || {
+            for _ in 0..600 {
+                unsafe { libc::raise(sig) };
+            }
+            fd2.store(true, Ordering::SeqCst);
+        });
+        let t1 = std::time::Instant::now();
+        while !flood_done.load(Ordering::SeqCst) && t1.elapsed().as_secs() < 4 {
+            std::thread::sleep(std::time::Duration::from_millis(1));
+        }
+        let close_done = Arc::new(AtomicBool::new(false));
+        let cd2 = close_done.clone();
+        let h2 = handle.clone();
+        std::thread::spawn(move || {
+            h2.close();
+            cd2.store(true, Ordering::SeqCst);
+        });
+        let t2 = std::time::Instant::now();
+        while !close_done.load(Ordering::SeqCst) && t2.elapsed().as_secs() < 4 {
+            std::thread::sleep(std::time::Duration::from_millis(1));
+        }
+        let (flood_ok, close_ok) = (flood_done.load(Ordering::SeqCst), close_done.load(Ordering::SeqCst));
+        BUSY.store(false, Ordering::SeqCst);
+        let t3 = std::time::Instant::now();
+        while !ended.load(Ordering::SeqCst) && t3.elapsed().as_secs() < 6 {
+            std::thread::sleep(std::time::Duration::from_millis(1));
+        }
+        emit(fd, &json!({"k": "probe", "flood_finished": flood_ok, "close_returned": close_ok, "iterator_ended": ended.load(Ordering::SeqCst), "is_closed": handle.is_closed()}));
+        emit(fd, &json!({"k": "done"}));
+    });
+    let mut rep = CaseReport::default();
+    rep.hash = hash_of(&"close-with-full-pipe");
+    rep.class("close-with-full-self-pipe");
+    rep.nontrivial = true;
+    rep.sample = Some(json!({"close_with_full_pipe": true, "records": recs, "end": format!("{:?}", end)}));
+    match recs.iter().find(|r| r["k"] == "probe") {
+        Some(r) => {
+            if r["close_returned"] != true {
+                rep.viol("C11/close-blocked", "close() did not return within 4 s: the consumer was busy handling a signal, 600 further deliveries had filled the self-pipe, and close()'s wake-up write waited for room".into());
+            }
+            if r["flood_finished"] != true {
+                rep.viol("C03/blocked", "a burst of 600 deliveries into an undrained iterator instance did not finish".into());
+            }
+            if r["iterator_ended"] != true {
+                rep.viol("C11/adapter-stream-never-ends", "blocking forever(): after close() the iterator did not end within 6 s once the consumer was back".into());
+            }
+        }
+        None => rep.inconclusive = Some(format!("close-with-full-pipe probe ended {:?}", end)),
+    }
+    rep
+}
